@@ -45,44 +45,78 @@ Lemma ck_ssdeep s :
 Proof. reflexivity. Qed.
 
 (* a specification name and the algorithm it infers to: the library's regular expression for the
-   algorithm implies the specification's rule for the name *)
+   algorithm (repaired variant) implies the specification's rule for the name.  The proof script works
+   for both spellings of Spec/StixValid.v:valid_hash_value (keyed on the literal name, or on the
+   algorithm the name infers to).                                                                 *)
+Lemma infer_hash_enum n alg : infer_hash n = Some alg -> In alg hash_enum_names.
+Proof.
+  unfold infer_hash. destruct (mem_ustr _ hash_enum_names) eqn:E; try discriminate.
+  intros H. injection H as <-. apply mem_ustr_In. exact E.
+Qed.
+
+(* valid_hash_value keyed on the algorithm *)
+Ltac hv_alg Hinf Hck :=
+  let Hin := fresh "Hin" in
+  pose proof (infer_hash_enum _ _ Hinf) as Hin; unfold valid_hash_value; rewrite Hinf; cbv zeta;
+  unfold hash_enum_names in Hin; cbn [map In] in Hin;
+  destruct Hin as [E|[E|[E|[E|[E|[E|[E|[E|[E|[E|[E|[E|[E|[E|[E|[]]]]]]]]]]]]]]]]; subst;
+  [ rewrite ck_md5 in Hck; exact (hexlen_strict _ _ Hck)
+  | rewrite ck_md6, hexlen_ok_true in Hck; exact Hck
+  | rewrite ck_ripemd in Hck; exact (hexlen_strict _ _ Hck)
+  | rewrite ck_sha1 in Hck; exact (hexlen_strict _ _ Hck)
+  | rewrite ck_sha224 in Hck; exact (hexlen_strict _ _ Hck)
+  | rewrite ck_sha256 in Hck; exact (hexlen_strict _ _ Hck)
+  | rewrite ck_sha384 in Hck; exact (hexlen_strict _ _ Hck)
+  | rewrite ck_sha512 in Hck; exact (hexlen_strict _ _ Hck)
+  | rewrite ck_sha3224 in Hck; exact (hexlen_strict _ _ Hck)
+  | rewrite ck_sha3256 in Hck; exact (hexlen_strict _ _ Hck)
+  | rewrite ck_sha3384 in Hck; exact (hexlen_strict _ _ Hck)
+  | rewrite ck_sha3512 in Hck; exact (hexlen_strict _ _ Hck)
+  | rewrite ck_ssdeep in Hck; unfold dollar in Hck; cbn [negb andb] in Hck; rewrite orb_false_r in Hck; exact Hck
+  | rewrite ck_whirlpool in Hck; exact (hexlen_strict _ _ Hck)
+  | rewrite ck_tlsh in Hck; exact (hexlen_strict _ _ Hck) ].
+
+(* valid_hash_value keyed on the literal name *)
+Ltac hcase E Hinf Hck lit lem :=
+  apply ustr_eqb_eq in E; subst;
+  let A := fresh "A" in
+  match type of Hinf with
+  | infer_hash _ = Some ?alg =>
+    assert (A : alg = u lit) by (vm_compute in Hinf; injection Hinf as <-; reflexivity)
+  end;
+  subst; rewrite lem in Hck; cbn [orb]; try (apply hexlen_strict; exact Hck).
+
+Ltac hv_name n s Hinf Hck :=
+  unfold valid_hash_value; cbv zeta;
+  destruct (ustr_eqb n (u "MD5")) eqn:E1; [hcase E1 Hinf Hck "MD5"%string ck_md5|];
+  destruct (ustr_eqb n (u "SHA-1")) eqn:E2; [hcase E2 Hinf Hck "SHA1"%string ck_sha1|];
+  destruct (ustr_eqb n (u "SHA-224")) eqn:E3; [hcase E3 Hinf Hck "SHA224"%string ck_sha224|];
+  destruct (ustr_eqb n (u "SHA3-224")) eqn:E4; [hcase E4 Hinf Hck "SHA3224"%string ck_sha3224|];
+  cbn [orb];
+  destruct (ustr_eqb n (u "SHA-256")) eqn:E5; [hcase E5 Hinf Hck "SHA256"%string ck_sha256|];
+  destruct (ustr_eqb n (u "SHA3-256")) eqn:E6; [hcase E6 Hinf Hck "SHA3256"%string ck_sha3256|];
+  cbn [orb];
+  destruct (ustr_eqb n (u "SHA-384")) eqn:E7; [hcase E7 Hinf Hck "SHA384"%string ck_sha384|];
+  destruct (ustr_eqb n (u "SHA3-384")) eqn:E8; [hcase E8 Hinf Hck "SHA3384"%string ck_sha3384|];
+  cbn [orb];
+  destruct (ustr_eqb n (u "SHA-512")) eqn:E9; [hcase E9 Hinf Hck "SHA512"%string ck_sha512|];
+  destruct (ustr_eqb n (u "SHA3-512")) eqn:E10; [hcase E10 Hinf Hck "SHA3512"%string ck_sha3512|];
+  destruct (ustr_eqb n (u "WHIRLPOOL")) eqn:E11; [hcase E11 Hinf Hck "WHIRLPOOL"%string ck_whirlpool|];
+  cbn [orb];
+  destruct (ustr_eqb n (u "RIPEMD-160")) eqn:E12; [hcase E12 Hinf Hck "RIPEMD160"%string ck_ripemd|];
+  destruct (ustr_eqb n (u "TLSH")) eqn:E13; [hcase E13 Hinf Hck "TLSH"%string ck_tlsh|];
+  destruct (ustr_eqb n (u "MD6")) eqn:E14;
+    [hcase E14 Hinf Hck "MD6"%string ck_md6; rewrite hexlen_ok_true in Hck; exact Hck|];
+  destruct (ustr_eqb n (u "SSDEEP")) eqn:E15;
+    [hcase E15 Hinf Hck "SSDEEP"%string ck_ssdeep; unfold dollar in Hck; cbn [negb andb] in Hck;
+     rewrite orb_false_r in Hck; exact Hck|];
+  reflexivity.
+
 Lemma check_hash_valid n alg s :
   infer_hash n = Some alg -> check_hash true alg s = true -> valid_hash_value n s = true.
 Proof.
-  intros Hinf Hck. unfold valid_hash_value. cbv zeta.
-  Ltac hcase E Hinf Hck lit lem :=
-    apply ustr_eqb_eq in E; subst;
-    assert (Ealg : exists a, a = u lit /\ Some a = Some a) by (eexists; split; reflexivity);
-    clear Ealg;
-    let A := fresh "A" in
-    match type of Hinf with
-    | infer_hash _ = Some ?alg =>
-      assert (A : alg = u lit) by (vm_compute in Hinf; injection Hinf as <-; reflexivity)
-    end;
-    subst; rewrite lem in Hck; cbn [orb]; try (apply hexlen_strict; exact Hck).
-  destruct (ustr_eqb n (u "MD5")) eqn:E1; [hcase E1 Hinf Hck "MD5"%string ck_md5|].
-  destruct (ustr_eqb n (u "SHA-1")) eqn:E2; [hcase E2 Hinf Hck "SHA1"%string ck_sha1|].
-  destruct (ustr_eqb n (u "SHA-224")) eqn:E3; [hcase E3 Hinf Hck "SHA224"%string ck_sha224|].
-  destruct (ustr_eqb n (u "SHA3-224")) eqn:E4; [hcase E4 Hinf Hck "SHA3224"%string ck_sha3224|].
-  cbn [orb].
-  destruct (ustr_eqb n (u "SHA-256")) eqn:E5; [hcase E5 Hinf Hck "SHA256"%string ck_sha256|].
-  destruct (ustr_eqb n (u "SHA3-256")) eqn:E6; [hcase E6 Hinf Hck "SHA3256"%string ck_sha3256|].
-  cbn [orb].
-  destruct (ustr_eqb n (u "SHA-384")) eqn:E7; [hcase E7 Hinf Hck "SHA384"%string ck_sha384|].
-  destruct (ustr_eqb n (u "SHA3-384")) eqn:E8; [hcase E8 Hinf Hck "SHA3384"%string ck_sha3384|].
-  cbn [orb].
-  destruct (ustr_eqb n (u "SHA-512")) eqn:E9; [hcase E9 Hinf Hck "SHA512"%string ck_sha512|].
-  destruct (ustr_eqb n (u "SHA3-512")) eqn:E10; [hcase E10 Hinf Hck "SHA3512"%string ck_sha3512|].
-  destruct (ustr_eqb n (u "WHIRLPOOL")) eqn:E11; [hcase E11 Hinf Hck "WHIRLPOOL"%string ck_whirlpool|].
-  cbn [orb].
-  destruct (ustr_eqb n (u "RIPEMD-160")) eqn:E12; [hcase E12 Hinf Hck "RIPEMD160"%string ck_ripemd|].
-  destruct (ustr_eqb n (u "TLSH")) eqn:E13; [hcase E13 Hinf Hck "TLSH"%string ck_tlsh|].
-  destruct (ustr_eqb n (u "MD6")) eqn:E14.
-  { hcase E14 Hinf Hck "MD6"%string ck_md6. rewrite hexlen_ok_true in Hck. exact Hck. }
-  destruct (ustr_eqb n (u "SSDEEP")) eqn:E15.
-  { hcase E15 Hinf Hck "SSDEEP"%string ck_ssdeep. unfold dollar in Hck. cbn [negb andb] in Hck.
-    rewrite orb_false_r in Hck. exact Hck. }
-  reflexivity.
+  intros Hinf Hck.
+  first [ solve [hv_alg Hinf Hck] | solve [hv_name n s Hinf Hck] ].
 Qed.
 
 Lemma hash_spec_name_spec names alg n :
